@@ -349,6 +349,7 @@ func RunC02(run *vk.Run) {
 		}
 	}
 	run.AddDrift(drift)
+	checkValidateCommands(run, m)
 	run.Exhaustive = true
-	run.Rule = "every row of Listing.tla (SNP: subsets of VMSA counts x SVSM x zero-length entry x report measurement incl. one-bit neighbour / unlisted / short x requested count x expected digest x entry point, and for SevValidate / the CLI an attestation whose own certificate table carries another genuine endorsement listing the report's measurement; TDX: subsets of RAM/early-accept rows x zero-length row x quote MRTD x requested RAM x entry point; " + fmt.Sprint(len(em.Cases)) + " rows) is realised as a genuinely signed endorsement plus report / quote and executed; the predicates use the listed sets computed by the harness from the endorsement"
+	run.Rule = "every row of Listing.tla (SNP: subsets of VMSA counts x SVSM x zero-length entry x report measurement incl. one-bit neighbour / unlisted / short x requested count x expected digest x entry point, and for SevValidate / the CLI an attestation whose own certificate table carries another genuine endorsement listing the report's measurement; TDX: subsets of RAM/early-accept rows x zero-length row x quote MRTD x requested RAM x entry point; " + fmt.Sprint(len(em.Cases)) + " rows) is realised as a genuinely signed endorsement plus report / quote and executed; the predicates use the listed sets computed by the harness from the endorsement; plus every combination of the validate commands' flags (endorsement file or the attestation's own, root file, base policy file, overwrite, named count / RAM size) on endorsed and unendorsed reports / quotes: the command's verdict is the library's for the options the flags spell"
 }
